@@ -118,6 +118,10 @@ func main() {
 		LenientPkgs:      map[string]bool{"time": true, "errors": true},
 		Trace:            *trace, SessionPaths: 150, LogDir: *logdir, Thorough: thorough,
 	}
+	eng.OpaqueStrings = map[string]string{}
+	for k, v := range cfg.Opaque {
+		eng.OpaqueStrings[resolveName(k)] = v
+	}
 	for _, p := range cfg.Lenient {
 		eng.LenientPkgs[pkgPathOf(p)] = true
 	}
